@@ -205,13 +205,16 @@ class Ctx(object):
     return {"evals": self.evals, "labels": dict(self.labels),
             "nontrivial": list(self.nontrivial), "samples": self.samples,
             "failures": self.failures, "info": self.info,
-            "wall": time.time() - self.t0}
+            "wall": time.time() - self.t0,
+            "budget_exhausted": self.time_left() <= 0}
 
 
 def merge_results(results):
   m = {"evals": 0, "labels": collections.Counter(), "nontrivial": set(),
-       "samples": {}, "failures": {}, "info": {}, "worker_wall": []}
+       "samples": {}, "failures": {}, "info": {}, "worker_wall": [],
+       "budget_exhausted": 0}
   for r in results:
+    m["budget_exhausted"] += 1 if r.get("budget_exhausted") else 0
     m["evals"] += r["evals"]
     m["labels"].update(r["labels"])
     m["nontrivial"].update(r["nontrivial"])
@@ -330,6 +333,8 @@ def finalize(pid, tier, seed, merged, known, mod, wall, is_replay, repo):
           "by_class": dict(sorted(merged["labels"].items())),
           "excluded_known": {k: int(v) for k, v in known_hits.items()},
           "inconclusive": int(merged["labels"].get("inconclusive_time", 0)),
+          "workers_budget_exhausted": int(merged.get("budget_exhausted", 0)),
+          "required_labels_not_reached": missing,
           "exhaustive": bool(merged["info"].get("exhaustive", False)),
           "info": merged["info"],
           "worker_wall_s": merged["worker_wall"],
@@ -347,7 +352,19 @@ def finalize(pid, tier, seed, merged, known, mod, wall, is_replay, repo):
         "known_hits=%d wall=%.1fs" %
         (pid, tier, seed, merged["evals"], nontriv, len(violations),
          sum(known_hits.values()), wall))
-  if rc == 0 and (missing or nontriv < 2 or merged["evals"] < 1):
+  if rc == 0 and (nontriv < 2 or merged["evals"] < 1):
+    print("HARNESS-ERROR vacuous run: nontrivial=%d evaluations=%d" %
+          (nontriv, merged["evals"]))
+    return 2
+  if rc == 0 and missing:
+    if merged.get("budget_exhausted", 0) > 0:
+      # a time budget that is hit means "inconclusive", never a failure: the
+      # classes below were not reached because the soft time budget ran out
+      # (slow or heavily loaded machine), not because the generator is broken
+      print("INCONCLUSIVE: time budget exhausted on %d worker(s) before reaching "
+            "required classes %s (recorded in evidence)" %
+            (merged["budget_exhausted"], missing))
+      return 0
     print("HARNESS-ERROR vacuous run: missing labels %s nontrivial=%d" %
           (missing, nontriv))
     return 2
